@@ -257,4 +257,23 @@ theorem invK {s : State κ ν} (hr : Reach (lts fixedCfg) s) : InvK s := by
   | init => simp [InvK, lts, init]
   | step a _ hst ih => exact invK_step ih hst
 
+/-- Run a list of labels. -/
+def runFrom (cfg : Cfg) (s : State κ ν) : List (Label κ ν) → Option (State κ ν)
+  | [] => some s
+  | a :: as => (step cfg s a).bind fun s' => runFrom cfg s' as
+
+theorem reach_of_run {cfg : Cfg} {s s' : State κ ν} (hr : Reach (lts cfg) s) :
+    ∀ {ls : List (Label κ ν)}, runFrom cfg s ls = some s' → Reach (lts cfg) s' := by
+  intro ls
+  induction ls generalizing s with
+  | nil => intro h; simp [runFrom] at h; exact h ▸ hr
+  | cons a as ih =>
+    intro h
+    simp only [runFrom] at h
+    cases hst : step cfg s a with
+    | none => simp [hst] at h
+    | some s1 =>
+      simp only [hst, Option.bind_some] at h
+      exact ih (Reach.step a hr hst) h
+
 end Kit.Processor
